@@ -17,14 +17,37 @@ Definition sb_cur_facts : sb_facts := Eval vm_compute in
      sbf_indexer_noinit := f_sb_indexer_ref_noinit && f_sb_ref_callers_noinit;
      sbf_frame_inherit := f_sb_frame_inherit;
      sbf_userfunc_unsafe := f_sb_userfunc_unsafe && f_sb_function_default_unsafe;
-     sbf_var_import_checked := f_sb_var_import_checked |}.
+     sbf_var_import_checked := f_sb_var_import_checked;
+     sbf_purity := map (fun p => (sb_enc (fst p), fst (snd p) && fst (snd (snd p)))) f_sb_purity |}.
 
 Definition sb_cur_raw_reads : list (sb_name * sb_name) := Eval vm_compute in
   map (fun p => (sb_enc (fst p), sb_enc (snd p))) f_sb_raw_reads.
 
-Definition sb_cur_body_scan : list (sb_name * (bool * bool)) := Eval vm_compute in
-  map (fun p => (sb_enc (fst p), snd p)) f_sb_body_scan.
+Definition sb_cur_purity_raw : list (sb_name * (bool * bool)) := Eval vm_compute in
+  map (fun p => (sb_enc (fst p), (fst (snd p), fst (snd (snd p))))) f_sb_purity.
 Definition sb_cur_console_returns_hidden : bool := Eval vm_compute in f_sb_console_returns_hidden.
+
+(* the analysis' own sanity: its self-test passed (mutating idioms rejected, the pure idioms of the tree accepted), and
+   the READ methods of the container classes it relies on are declared const in their headers (all overloads) *)
+Definition sb_cur_purity_selftest : bool := Eval vm_compute in f_sb_purity_selftest.
+Definition sb_cur_read_methods : list (sb_name * (bool * bool)) := Eval vm_compute in
+  map (fun p => (sb_enc (fst p), snd p)) f_sb_read_methods.
+(* read methods whose body hands `const_cast<..>(this)` to a reader (ConfigWriter::Emit*, GetPrototypeField) or has an
+   out-parameter overload: accepted by name, everything else must have a clean body *)
+Definition sb_trusted_read_methods : list sb_name := Eval vm_compute in
+  map sb_enc ["Array::ToString"; "Dictionary::ToString"; "Dictionary::Get"; "Namespace::Get"; "Dictionary::GetFieldByName";
+              "Namespace::GetFieldByName"; "Object::GetFieldByName"]%string.
+Definition sb_read_methods_ok (rm : list (sb_name * (bool * bool))) : bool :=
+  Nat.leb 20 (List.length rm) &&
+  forallb (fun p => fst (snd p) && (snd (snd p) || sb_mem (fst p) sb_trusted_read_methods)) rm.
+
+(* reflective reads reachable from side-effect-free natives: all through GetFieldByName(.., true, ..), the accessor that
+   tests no_user_view with `sandboxed` hard-wired; Reference#get is among them (it is the one that really gets there) *)
+Definition sb_cur_native_reflect : list (sb_name * sb_name) := Eval vm_compute in
+  map (fun p => (sb_enc (fst p), sb_enc (snd (snd p)))) f_sb_native_reflect.
+Definition sb_n_gfbn_true := Eval vm_compute in sb_enc "GetFieldByName:true".
+Definition sb_native_reads_checked (l : list (sb_name * sb_name)) : bool :=
+  forallb (fun p => snd p =? sb_n_gfbn_true) l && existsb (fun p => fst p =? sb_n_ref_get) l.
 
 (* the libraries linked into the harness: what the live enumeration can see *)
 Definition sb_cur_func_libs : list (sb_name * sb_name) := Eval vm_compute in
@@ -38,7 +61,7 @@ Definition sb_pinned_facts : sb_facts :=
      sbf_call_guard := sbf_call_guard sb_cur_facts; sbf_getfield_checked := sbf_getfield_checked sb_cur_facts;
      sbf_ref_get_checked := sbf_ref_get_checked sb_cur_facts; sbf_indexer_noinit := sbf_indexer_noinit sb_cur_facts;
      sbf_frame_inherit := sbf_frame_inherit sb_cur_facts; sbf_userfunc_unsafe := sbf_userfunc_unsafe sb_cur_facts;
-     sbf_var_import_checked := sbf_var_import_checked sb_cur_facts |}.
+     sbf_var_import_checked := sbf_var_import_checked sb_cur_facts; sbf_purity := sbf_purity sb_cur_facts |}.
 
 (* the guard table is exactly the expected one: these and only these constructors refuse to run *)
 Definition sb_expected_guarded : list sb_name :=
